@@ -28,6 +28,9 @@ SUBJ = {
  "F29": "data that is not a well formed document was accepted",
  "F30": "`test -o json|yaml|junit` exited 0",
  "F35": "a variable defined in terms of itself overflowed the stack",
+ "F36": "the CloudFormation console reporter subtracted below zero",
+ "F37": "`in` with a regular expression that hits the backtracking limit",
+ "F38": "a custom message of only blanks or separators",
  "F31": "`test` listed the rules of a test case in a different order",
 }
 log = subprocess.run(["git", "-C", "/repo", "log", "--format=%h %s"], capture_output=True, text=True).stdout.splitlines()
